@@ -49,10 +49,17 @@ class En:
 
 
 class Vc:
-    __slots__ = ('ty', 'len', 'slots')
+    """n: structural upper bound on the length (slots at index >= n are never populated)"""
+    __slots__ = ('ty', 'len', 'slots', 'n')
 
-    def __init__(self, ty, ln, slots):
+    def __init__(self, ty, ln, slots, n=None):
         self.ty, self.len, self.slots = ty, ln, slots
+        if n is None:
+            n = 0
+            for i, x in enumerate(slots):
+                if x is not None:
+                    n = i + 1
+        self.n = n
 
     def __repr__(self):
         return 'Vc(%r,len=%s)' % (self.ty, self.len)
@@ -93,7 +100,7 @@ def fresh(ty, name, wf=None):
         ln = z3.BitVec('%s.len!%d' % (name, _uid()), 64)
         if wf is not None:
             wf.append(z3.ULE(ln, ty.cap))
-        return Vc(ty, ln, [fresh(ty.elem, '%s[%d]' % (name, i), wf) for i in range(ty.cap)])
+        return Vc(ty, ln, [fresh(ty.elem, '%s[%d]' % (name, i), wf) for i in range(ty.cap)], ty.cap)
     if isinstance(ty, TCell):
         return fresh(ty.inner, name, wf)
     if isinstance(ty, TOpaque):
@@ -111,7 +118,7 @@ def default(ty):
     if isinstance(ty, TEnum):
         return En(ty, z3.BitVecVal(0, 8), [None for _ in ty.variants])
     if isinstance(ty, TVec):
-        return Vc(ty, z3.BitVecVal(0, 64), [None] * ty.cap)
+        return Vc(ty, z3.BitVecVal(0, 64), [None] * ty.cap, 0)
     if isinstance(ty, TCell):
         return default(ty.inner)
     if isinstance(ty, TOpaque):
@@ -156,7 +163,7 @@ def vmap(f, v):
     if isinstance(v, En):
         return En(v.ty, f(v.tag), [None if p is None else [vmap(f, x) for x in p] for p in v.vs])
     if isinstance(v, Vc):
-        return Vc(v.ty, f(v.len), [vmap(f, x) for x in v.slots])
+        return Vc(v.ty, f(v.len), [vmap(f, x) for x in v.slots], v.n)
     if hasattr(v, 'vmap'):
         return v.vmap(f)
     return v
@@ -197,7 +204,7 @@ def ite(c, a, b):
                 vs.append([ite(c, x, y) for x, y in zip(p, q)])
         return En(a.ty, _ite_leaf(c, a.tag, b.tag), vs)
     if isinstance(a, Vc):
-        return Vc(a.ty, _ite_leaf(c, a.len, b.len), [ite(c, x, y) for x, y in zip(a.slots, b.slots)])
+        return Vc(a.ty, _ite_leaf(c, a.len, b.len), [ite(c, x, y) for x, y in zip(a.slots, b.slots)], max(a.n, b.n))
     if isinstance(a, Opq):
         return a
     if hasattr(a, 'ite'):
@@ -237,10 +244,30 @@ def simp(v):
     return vmap(z3.simplify, v)
 
 
+def substituter(pairs):
+    """t -> t[from := to]; one array conversion per instantiation instead of z3.substitute's per-call checks"""
+    pairs = [(a, b) for a, b in pairs if not a.eq(b)]
+    if not pairs:
+        return lambda t: t
+    n = len(pairs)
+    ctx = pairs[0][0].ctx
+    frm = (z3.Ast * n)(*[a.as_ast() for a, _ in pairs])
+    to = (z3.Ast * n)(*[b.as_ast() for _, b in pairs])
+    keep = pairs
+    core, ref, wrap = z3.z3core.Z3_substitute, ctx.ref(), z3.z3._to_expr_ref
+
+    def sub(t):
+        if t.num_args() == 0 and not z3.is_const(t):
+            return t
+        return wrap(core(ref, t.as_ast(), n, frm, to), ctx)
+    sub.keep = keep
+    return sub
+
+
 def substitute(v, pairs):
     if not pairs:
         return v
-    return vmap(lambda t: z3.substitute(t, *pairs), v)
+    return vmap(substituter(pairs), v)
 
 
 def pair_leaves(formal, actual, out):
